@@ -128,7 +128,7 @@ Definition awf (a : ast) : Prop := ∀ h u, handles a !! h = Some u → h < next
 
 Lemma awf_abump a c : awf a → awf (abump c a).
 Proof.
-  intros Hw h u. cbn. destruct (decide (h = next_hid a)) as [->|Hn].
+  intros Hw h u. cbn. destruct (decide (h = next_hid a)) as [-> | Hn].
   - intros _. lia.
   - rewrite lookup_insert_ne by done. intros H. apply Hw in H. lia.
 Qed.
@@ -216,6 +216,10 @@ Definition closed (V : gset positive) : Prop :=
     (absn (t_lo t) = 1%positive ∨ absn (t_lo t) ∈ V) ∧
     (absn (t_hi t) = 1%positive ∨ absn (t_hi t) ∈ V).
 
+Lemma or_in_mono (V V' : gset positive) (k : positive) :
+  V ⊆ V' → k = 1%positive ∨ k ∈ V → k = 1%positive ∨ k ∈ V'.
+Proof. intros HS [?|?]; [by left|right; by apply HS]. Qed.
+
 Lemma closed_add1 V : closed V → closed (V ∪ {[1%positive]}).
 Proof.
   intros Hc n t Hn Hn1 Ht. apply elem_of_union in Hn as [Hn|Hn]; [|set_solver].
@@ -275,11 +279,14 @@ Proof.
   rewrite (bind_ok _ _ _ _ _ E2).
   assert (Hru : reach (succ s) (eq (absn u)) (absn u))
     by (apply reach_root; [done|by apply valid_dom]).
-  exists (V2 ∪ {[absn u]}). split_and!; [done|set_solver| |right; set_solver|].
+  assert (S3 : V2 ⊆ V2 ∪ {[absn u]}) by apply union_subseteq_l.
+  exists (V2 ∪ {[absn u]}). split_and!; [done|by do 2 (etrans; [eassumption|])| |
+    right; apply elem_of_union; right; by apply elem_of_singleton|].
   - intros n t' Hn' Hn1 Ht'. apply elem_of_union in Hn' as [Hn'|Hn'].
-    + destruct (C2 n t' Hn' Hn1 Ht') as [[?|?] [?|?]]; split; set_solver.
+    + destruct (C2 n t' Hn' Hn1 Ht') as [Ha Hb].
+      split; by apply (or_in_mono V2).
     + apply elem_of_singleton in Hn'. subst n. simplify_eq.
-      split; [destruct I1; set_solver|destruct I2; set_solver].
+      split; [apply (or_in_mono V1); [by etrans|done]|by apply (or_in_mono V2)].
   - intros n Hn'. apply elem_of_union in Hn' as [Hn'|Hn'].
     + destruct (R2 n Hn') as [Hn1|[Hn1 Hr]].
       * destruct (R1 n Hn1) as [?|[Hn1' Hr]]; [by left|right]. split; [done|].
@@ -294,6 +301,13 @@ Proof.
   unfold rootsR. split.
   - intros (x&Hx&<-). apply elem_of_cons in Hx as [->|Hx]; [by left|right; eauto].
   - intros [<-|(x&Hx&<-)]; [exists u|exists x]; split; try done; set_solver.
+Qed.
+
+Lemma reach_root_in m u l n : reach m (eq (absn u)) n → reach m (rootsR (u :: l)) n.
+Proof. apply reach_mono. intros k <-. exists u. split; [apply elem_of_list_here|done]. Qed.
+Lemma reach_roots_tail m u l n : reach m (rootsR l) n → reach m (rootsR (u :: l)) n.
+Proof.
+  apply reach_mono. intros k (x&Hx&<-). exists x. split; [by apply elem_of_list_further|done].
 Qed.
 
 Lemma descendants_fold fuel (l : list Z) : ∀ V,
@@ -311,9 +325,11 @@ Proof.
     as (V1&E1&S1&C1&I1&R1).
   rewrite (bind_ok _ _ _ _ _ E1).
   destruct (IH V1 Hf Hl C1) as (V2&E2&S2&C2&N2&I2&R2). rewrite E2.
-  exists V2. split_and!; [done|set_solver|done|set_solver| |].
+  assert (S0 : V ⊆ V ∪ {[1%positive]}) by apply union_subseteq_l.
+  exists V2. split_and!; [done|by do 2 (etrans; [eassumption|])|done| | |].
+  - intros _. apply S2, S1, elem_of_union. right. by apply elem_of_singleton.
   - intros x Hx. apply elem_of_cons in Hx as [->|Hx]; [|by apply I2].
-    destruct I1; [by left|right; set_solver].
+    by apply (or_in_mono V1).
   - intros n Hn. destruct (R2 n Hn) as [Hn1|Hr].
     + destruct (R1 n Hn1) as [Hn0|[_ Hr]].
       * apply elem_of_union in Hn0 as [?|Hn0]; [by left|right].
@@ -335,13 +351,13 @@ Proof.
     as (X&E&_&C&N&I&R).
   rewrite (bind_ok _ _ _ _ _ E). unfold assert.
   rewrite bool_decide_eq_true_2.
-  2:{ apply Forall_forall. intros u Hu. destruct (I u Hu) as [->|?]; [|done].
+  2:{ apply Forall_forall. intros u Hu. destruct (I u Hu) as [-> | ?]; [|done].
       apply N. intros ->. set_solver. }
   cbn [bind ret]. exists X. split; [done|]. intros n. split.
   - intros Hn. destruct (R n Hn) as [?|?]; [set_solver|done].
   - intros Hn. pose proof (reach_inh _ _ _ Hn) as (k&u&Hu&_).
     assert (N1 : 1%positive ∈ X) by (apply N; intros ->; set_solver).
-    destruct (reach_closed X (rootsR roots) n C) as [->|?]; try done.
+    destruct (reach_closed X (rootsR roots) n C) as [-> | ?]; try done.
     intros k' (u'&Hu'&<-). by apply I.
 Qed.
 
@@ -380,3 +396,489 @@ Proof.
   - intros k (x&Hx&<-). apply elem_of_list_singleton in Hx. by subst.
   - intros k <-. exists u. split; [set_solver|done].
 Qed.
+
+(** ** 3. The exported graphs *)
+
+(** *** An evaluator of exported graphs.  It only reads the graph: the level
+    (or the label) of a node tells which variable is tested, the [value]
+    mark of an edge which branch it is, the [complement] mark whether the
+    target is negated; a node without outgoing edges is the terminal (true). *)
+Definition ekey (e : positive * positive * bool * bool)
+  : (positive * bool) * (positive * bool) :=
+  let '(u, v, b, c) := e in ((u, b), (v, c)).
+Definition g_level (g : xgraph) (n : positive) : option nat :=
+  (list_to_map (x_nodes g) : gmap positive nat) !! n.
+Definition g_edge (g : xgraph) (n : positive) (b : bool) : option (positive * bool) :=
+  (list_to_map (ekey <$> x_edges g) : gmap (positive * bool) (positive * bool)) !! (n, b).
+Definition g_label (g : xgraph) (n : positive) : option (option nat) :=
+  (list_to_map (x_labels g) : gmap positive (option nat)) !! n.
+
+Fixpoint gwalk (fuel : nat) (key : positive → option bool)
+    (edge : positive → bool → option (positive * bool)) (n : positive) : bool :=
+  match fuel with
+  | O => false
+  | S f =>
+      match key n with
+      | None => false
+      | Some b =>
+          match edge n b with
+          | None => true
+          | Some (m, c) => xorb c (gwalk f key edge m)
+          end
+      end
+  end.
+
+(** enough fuel: one more than the largest level written in the graph *)
+Definition gfuel (g : xgraph) : nat := S (max_list (x_nodes g).*2).
+(** evaluation under an assignment to levels (both exports) *)
+Definition geval (g : xgraph) (n : positive) (a : nat → bool) : bool :=
+  gwalk (gfuel g) (fun n => a <$> g_level g n) (g_edge g) n.
+(** evaluation under an assignment to variable names, reading the labels
+    (DOT only) *)
+Definition gevaln (g : xgraph) (n : positive) (ρ : nat → bool) : bool :=
+  gwalk (gfuel g)
+    (fun n => (fun o : option nat => match o with Some v => ρ v | None => false end)
+                <$> g_label g n) (g_edge g) n.
+
+Definition lo_edge (n : positive) (t : triple) : positive * positive * bool * bool :=
+  (n, absn (t_lo t), false, bool_decide (t_lo t < 0)%Z).
+Definition hi_edge (n : positive) (t : triple) : positive * positive * bool * bool :=
+  (n, absn (t_hi t), true, false).
+
+(** what "the graph is the diagram restricted to [X]" means *)
+Record graph_of (s : st) (X : gset positive) (g : xgraph) : Prop := {
+  go_nodes : ∀ n l, (n, l) ∈ x_nodes g ↔ n ∈ X ∧ (t_lvl <$> succ s !! n) = Some l;
+  go_edges : ∀ e, e ∈ x_edges g ↔
+     ∃ n t, n ∈ X ∧ succ s !! n = Some t ∧ n ≠ 1%positive ∧
+            (e = lo_edge n t ∨ e = hi_edge n t);
+}.
+
+Lemma D_abs s u a : Inv s → valid s u →
+  D s u a = xorb (bool_decide (u < 0)%Z) (D s (Z.pos (absn u)) a).
+Proof.
+  intros HI Hv. destruct u as [|p|p]; [by destruct Hv| |].
+  - rewrite absn_pos, bool_decide_eq_false_2 by lia. by destruct (D s _ a).
+  - rewrite absn_negp, bool_decide_eq_true_2 by lia.
+    change (Z.neg p) with (- Z.pos p)%Z. rewrite D_neg; [done|done|].
+    split; [done|]. destruct Hv as [_ H]. by rewrite absn_negp in H.
+Qed.
+
+Section graph.
+Context (s : st) (HI : Inv s) (X : gset positive).
+Context (HXdom : ∀ n, n ∈ X → n ∈ dom (succ s)).
+Context (HXcl : ∀ n t, n ∈ X → n ≠ 1%positive → succ s !! n = Some t →
+                  absn (t_lo t) ∈ X ∧ absn (t_hi t) ∈ X).
+
+Lemma is_term_iff n t : succ s !! n = Some t → is_term t = true ↔ n = 1%positive.
+Proof.
+  intros Ht. unfold is_term. rewrite bool_decide_eq_true. split.
+  - intros E. destruct (decide (n = 1%positive)) as [|Hn]; [done|].
+    destruct (inv_node _ HI _ _ Ht Hn) as (_&[? _]&_). done.
+  - intros ->. rewrite (inv_term _ HI) in Ht. by simplify_eq.
+Qed.
+
+Lemma elem_levels_of n l :
+  (n, l) ∈ levels_of s (elements X) ↔ n ∈ X ∧ (t_lvl <$> succ s !! n) = Some l.
+Proof.
+  unfold levels_of. rewrite elem_of_list_omap. split.
+  - intros (x&Hx&E). apply elem_of_elements in Hx.
+    destruct (succ s !! x) as [t|] eqn:Ht; [|done]. cbn in E. simplify_eq.
+    rewrite Ht. done.
+  - intros (Hn&E). exists n. split; [by apply elem_of_elements|].
+    destruct (succ s !! n) as [t|]; [|done]. cbn in *. by simplify_eq.
+Qed.
+
+Lemma elem_edges_of e :
+  e ∈ edges_of s (elements X) ↔
+  ∃ n t, n ∈ X ∧ succ s !! n = Some t ∧ n ≠ 1%positive ∧
+         (e = lo_edge n t ∨ e = hi_edge n t).
+Proof.
+  unfold edges_of. rewrite elem_of_list_bind. split.
+  - intros (n&He&Hn). apply elem_of_elements in Hn.
+    destruct (succ s !! n) as [t|] eqn:Ht; [|by apply elem_of_nil in He].
+    destruct (is_term t) eqn:Et; [by apply elem_of_nil in He|].
+    exists n, t. split_and!; try done.
+    + intros ->. assert (is_term t = true) by (by apply (is_term_iff _ _ Ht)).
+      congruence.
+    + apply elem_of_cons in He as [->|He]; [by left|].
+      apply elem_of_list_singleton in He. by right.
+  - intros (n&t&Hn&Ht&Hn1&He). exists n. split; [|by apply elem_of_elements].
+    rewrite Ht. destruct (is_term t) eqn:Et.
+    { by apply (is_term_iff _ _ Ht) in Et. }
+    destruct He as [-> | ->]; [apply elem_of_list_here|apply elem_of_list_further, elem_of_list_here].
+Qed.
+
+Lemma graph_of_intro g :
+  x_nodes g = levels_of s (elements X) → x_edges g = edges_of s (elements X) →
+  graph_of s X g.
+Proof.
+  intros E1 E2. split; intros; rewrite ?E1, ?E2; [apply elem_levels_of|apply elem_edges_of].
+Qed.
+
+Context (g : xgraph) (Hg : graph_of s X g).
+
+Lemma g_level_ok n t : n ∈ X → succ s !! n = Some t → g_level g n = Some (t_lvl t).
+Proof.
+  intros Hn Ht. unfold g_level. apply elem_of_list_to_map_1'.
+  - intros y Hy. apply (go_nodes _ _ _ Hg) in Hy as [_ Hy]. rewrite Ht in Hy.
+    cbn in Hy. congruence.
+  - apply (go_nodes _ _ _ Hg). by rewrite Ht.
+Qed.
+
+Lemma g_edge_term b : g_edge g 1 b = None.
+Proof.
+  unfold g_edge. apply not_elem_of_list_to_map_1. intros Hin.
+  apply elem_of_list_fmap in Hin as ([k y]&Ek&Hin). cbn in Ek. subst k.
+  apply elem_of_list_fmap in Hin as (e&Ee&Hin).
+  apply (go_edges _ _ _ Hg) in Hin as (n&t&_&_&Hn1&[-> | ->]); cbn in Ee; congruence.
+Qed.
+
+Lemma g_edge_ok n t : n ∈ X → succ s !! n = Some t → n ≠ 1%positive →
+  g_edge g n true = Some (absn (t_hi t), false) ∧
+  g_edge g n false = Some (absn (t_lo t), bool_decide (t_lo t < 0)%Z).
+Proof.
+  intros Hn Ht Hn1. unfold g_edge. split; apply elem_of_list_to_map_1'.
+  - intros y Hy. apply elem_of_list_fmap in Hy as (e&Ee&Hin).
+    apply (go_edges _ _ _ Hg) in Hin as (n'&t'&_&Ht'&_&[-> | ->]); cbn in Ee;
+      simplify_eq; done.
+  - apply elem_of_list_fmap. exists (hi_edge n t). split; [done|].
+    apply (go_edges _ _ _ Hg). exists n, t. by eauto 6.
+  - intros y Hy. apply elem_of_list_fmap in Hy as (e&Ee&Hin).
+    apply (go_edges _ _ _ Hg) in Hin as (n'&t'&_&Ht'&_&[-> | ->]); cbn in Ee;
+      simplify_eq; done.
+  - apply elem_of_list_fmap. exists (lo_edge n t). split; [done|].
+    apply (go_edges _ _ _ Hg). exists n, t. by eauto 6.
+Qed.
+
+Lemma gwalk_D key a :
+  (∀ n t, n ∈ X → succ s !! n = Some t → n ≠ 1%positive → key n = Some (a (t_lvl t))) →
+  is_Some (key 1%positive) →
+  ∀ fuel n, n ∈ X → nvars s - lvl_of s (Z.pos n) < fuel →
+    gwalk fuel key (g_edge g) n = D s (Z.pos n) a.
+Proof.
+  intros Hkey [b1 Hk1]. induction fuel as [|f IH]; intros n Hn Hf; [lia|].
+  assert (Hv : valid s (Z.pos n)).
+  { split; [done|]. rewrite absn_pos. apply elem_of_dom. by apply HXdom. }
+  cbn [gwalk].
+  destruct (node_cases s HI _ Hv) as [[E _]|(t&Ht&Hn1&Hlo&Hl&?&Hvl&Hvh&Hhp&Hll&Hlh&?)];
+    rewrite absn_pos in *.
+  - subst n. rewrite Hk1, g_edge_term. by rewrite D_1.
+  - rewrite (Hkey n t Hn Ht Hn1).
+    destruct (g_edge_ok n t Hn Ht Hn1) as [Eh El].
+    destruct (HXcl n t Hn Hn1 Ht) as [Xl Xh].
+    rewrite (D_step s HI _ a t Hv Ht Hn1).
+    rewrite bool_decide_eq_false_2 by lia. rewrite xorb_false_l.
+    destruct (a (t_lvl t)).
+    + rewrite Eh. rewrite IH; [|done|].
+      * rewrite xorb_false_l. rewrite (D_abs s (t_hi t) a HI Hvh).
+        rewrite bool_decide_eq_false_2 by lia. by rewrite xorb_false_l.
+      * change (lvl_of s (Z.pos (absn (t_hi t)))) with (lvl_of s (t_hi t)). lia.
+    + rewrite El. rewrite IH; [|done|].
+      * by rewrite (D_abs s (t_lo t) a HI Hvl).
+      * change (lvl_of s (Z.pos (absn (t_lo t)))) with (lvl_of s (t_lo t)). lia.
+Qed.
+
+Context (H1X : 1%positive ∈ X).
+
+Lemma gfuel_ok n : nvars s - lvl_of s (Z.pos n) < gfuel g.
+Proof.
+  unfold gfuel. assert (nvars s ≤ max_list (x_nodes g).*2); [|lia].
+  apply max_list_elem_of_le. apply elem_of_list_fmap.
+  exists (1%positive, nvars s). split; [done|].
+  apply (go_nodes _ _ _ Hg). split; [done|]. by rewrite (inv_term _ HI).
+Qed.
+
+(** evaluating the exported graph from a node gives the function of that
+    node (as a positive reference) *)
+Theorem geval_D n a : n ∈ X → geval g n a = D s (Z.pos n) a.
+Proof.
+  intros Hn. unfold geval. apply gwalk_D; [| |done|apply gfuel_ok].
+  - intros m t Hm Ht _. by rewrite (g_level_ok m t Hm Ht).
+  - rewrite (g_level_ok 1 _ H1X (inv_term _ HI)). by eexists.
+Qed.
+
+(** … and a reference, through its sign *)
+Corollary geval_ref u a : valid s u → absn u ∈ X →
+  D s u a = xorb (bool_decide (u < 0)%Z) (geval g (absn u) a).
+Proof. intros Hv Hn. rewrite geval_D by done. by apply D_abs. Qed.
+
+End graph.
+
+(** [faithful s P g]: [g] has exactly the nodes satisfying [P] with their
+    levels; every non-terminal one has exactly its "else" edge (value false,
+    complement mark = sign of the stored low edge) and its "then" edge
+    (value true, never complemented); evaluating [g] from any of its nodes
+    gives the function of that node. *)
+Definition faithful (s : st) (P : positive → Prop) (g : xgraph) : Prop :=
+  (∀ n l, (n, l) ∈ x_nodes g ↔ P n ∧ (t_lvl <$> succ s !! n) = Some l) ∧
+  (∀ e, e ∈ x_edges g ↔
+     ∃ n t, P n ∧ succ s !! n = Some t ∧ n ≠ 1%positive ∧
+            (e = lo_edge n t ∨ e = hi_edge n t)) ∧
+  (∀ n a, P n → geval g n a = D s (Z.pos n) a).
+
+Lemma faithful_intro s (X : gset positive) (P : positive → Prop) g :
+  Inv s → (∀ n, n ∈ X ↔ P n) →
+  (∀ n, n ∈ X → n ∈ dom (succ s)) →
+  (∀ n t, n ∈ X → n ≠ 1%positive → succ s !! n = Some t →
+     absn (t_lo t) ∈ X ∧ absn (t_hi t) ∈ X) →
+  (∀ n, n ∈ X → 1%positive ∈ X) →
+  x_nodes g = levels_of s (elements X) → x_edges g = edges_of s (elements X) →
+  faithful s P g.
+Proof.
+  intros HI HP Hd Hc H1 E1 E2.
+  pose proof (graph_of_intro s HI X g E1 E2) as Hg.
+  split; [|split].
+  - intros n l. rewrite <- HP. apply (go_nodes _ _ _ Hg).
+  - intros e. rewrite (go_edges _ _ _ Hg). by setoid_rewrite HP.
+  - intros n a Hn. apply HP in Hn. apply (geval_D s HI X Hd Hc g Hg); [|done]. eauto.
+Qed.
+
+Section export.
+Context (s : st) (HI : Inv s).
+
+Lemma closed_add V u : closed s V → (absn u = 1%positive ∨ absn u ∈ V) →
+  closed s (V ∪ {[absn u]}).
+Proof.
+  intros Hc Hu n t Hn Hn1 Ht.
+  assert (Hn' : n ∈ V).
+  { apply elem_of_union in Hn as [?|Hn]; [done|]. apply elem_of_singleton in Hn.
+    subst n. by destruct Hu. }
+  destruct (Hc n t Hn' Hn1 Ht) as [Ha Hb].
+  split; apply (or_in_mono V); try done; apply union_subseteq_l.
+Qed.
+
+Lemma reach_from_fold fuel (l : list Z) : ∀ V,
+  nvars s < fuel → Forall (valid s) l → closed s V →
+  ∃ V', foldM (fun (visited : gset positive) u =>
+            ensure EValue (mem u s) ;;;
+            v <- descendants_rec fuel u visited ;;
+            ret (v ∪ {[absn u]})) V l s = (Ok V', s) ∧
+    V ⊆ V' ∧ closed s V' ∧ (∀ u, u ∈ l → absn u ∈ V') ∧
+    ∀ n, n ∈ V' → n ∈ V ∨ reach (succ s) (rootsR l) n.
+Proof.
+  induction l as [|u l IH]; intros V Hf Hl Hc.
+  { exists V. cbn. split_and!; try done; [set_solver|by left]. }
+  apply Forall_cons in Hl as [Hu Hl]. cbn [foldM].
+  destruct (descendants_rec_spec s HI fuel u V Hu Hc ltac:(lia)) as (V1&E1&S1&C1&I1&R1).
+  assert (Estep : (ensure EValue (mem u s) ;;;
+                   v <- descendants_rec fuel u V ;; ret (v ∪ {[absn u]})) s
+                  = (Ok (V1 ∪ {[absn u]}), s)).
+  { rewrite (proj2 (mem_valid s u) Hu). cbn [ensure].
+    rewrite (bind_ok _ _ s tt s) by done. by rewrite (bind_ok _ _ _ _ _ E1). }
+  rewrite (bind_ok _ _ _ _ _ Estep).
+  destruct (IH (V1 ∪ {[absn u]}) Hf Hl (closed_add V1 u C1 I1)) as (V2&E2&S2&C2&I2&R2).
+  rewrite E2.
+  assert (S3 : V1 ⊆ V1 ∪ {[absn u]}) by apply union_subseteq_l.
+  assert (Hru : reach (succ s) (rootsR (u :: l)) (absn u)).
+  { apply reach_root; [|by apply valid_dom]. exists u. split; [apply elem_of_list_here|done]. }
+  exists V2. split_and!; [done|by do 2 (etrans; [eassumption|])|done| |].
+  - intros x Hx. apply elem_of_cons in Hx as [->|Hx]; [|by apply I2].
+    apply S2, elem_of_union. right. by apply elem_of_singleton.
+  - intros n Hn. destruct (R2 n Hn) as [Hn1|Hr].
+    + apply elem_of_union in Hn1 as [Hn1|Hn1].
+      * destruct (R1 n Hn1) as [?|[_ Hr]]; [by left|right]. by apply reach_root_in.
+      * apply elem_of_singleton in Hn1. subst n. by right.
+    + right. by apply reach_roots_tail.
+Qed.
+
+(** the node set of [to_nx] *)
+Lemma reach_from_exact (roots : list Z) :
+  Forall (valid s) roots →
+  ∃ X, reach_from roots s = (Ok X, s) ∧
+    ∀ n, n ∈ X ∪ {[1%positive]} ↔ n = 1%positive ∨ reach (succ s) (rootsR roots) n.
+Proof.
+  intros Hr. unfold reach_from. cbn [bind get].
+  assert (Hc0 : closed s ∅) by (intros n t Hn; set_solver).
+  destruct (reach_from_fold (S (S (nvars s))) roots ∅ ltac:(lia) Hr Hc0)
+    as (X&E&_&C&I&R).
+  exists X. split; [done|]. intros n. rewrite elem_of_union, elem_of_singleton. split.
+  - intros [Hn | ->]; [|by left]. destruct (R n Hn) as [?|?]; [set_solver|by right].
+  - intros [-> | Hn]; [by right|].
+    destruct (reach_closed s HI X (rootsR roots) n C) as [-> | ?]; try done; [|by right|by left].
+    intros k' (u'&Hu'&<-). right. by apply I.
+Qed.
+
+Lemma reach_set_closed (R : positive → Prop) (X : gset positive) :
+  (∀ n, n ∈ X ↔ reach (succ s) R n) →
+  (∀ n, n ∈ X → n ∈ dom (succ s)) ∧
+  (∀ n t, n ∈ X → n ≠ 1%positive → succ s !! n = Some t →
+     absn (t_lo t) ∈ X ∧ absn (t_hi t) ∈ X).
+Proof.
+  intros HX. split.
+  - intros n Hn. apply HX in Hn. by eapply reach_dom.
+  - intros n t Hn Hn1 Ht. apply HX in Hn.
+    destruct (inv_node _ HI _ _ Ht Hn1) as (_&[? _]&?&_).
+    split; apply HX; [by eapply reach_lo|eapply reach_hi; [done..|lia]].
+Qed.
+
+Theorem to_nx_faithful (roots : list Z) :
+  Forall (valid s) roots →
+  ∃ g, to_nx roots s = (Ok g, s) ∧ x_refs g = [] ∧ x_labels g = [] ∧
+    faithful s (reach (succ s) (rootsR roots)) g ∧
+    ∀ u a, u ∈ roots →
+      D s u a = xorb (bool_decide (u < 0)%Z) (geval g (absn u) a).
+Proof.
+  intros Hr. unfold to_nx.
+  destruct (reach_from_exact roots Hr) as (X0&E&HX0).
+  rewrite (bind_ok _ _ _ _ _ E). cbn [bind get ret].
+  set (X := match roots with [] => ∅ | _ :: _ => X0 ∪ {[1%positive]} end).
+  assert (HX : ∀ n, n ∈ X ↔ reach (succ s) (rootsR roots) n).
+  { intros n. subst X. destruct roots as [|u l] eqn:El.
+    - split; [set_solver|]. intros Hn. apply reach_inh in Hn as (k&x&Hx&_). set_solver.
+    - rewrite <- El in *. rewrite HX0. split; [|by right].
+      intros [-> | ?]; [|done]. apply (reach_roots_term s HI); [done|by rewrite El]. }
+  destruct (reach_set_closed _ X HX) as [Hd Hc].
+  eexists. split; [reflexivity|]. split; [done|]. split; [done|].
+  assert (Hf : faithful s (reach (succ s) (rootsR roots))
+                 (XGraph (levels_of s (elements X)) (edges_of s (elements X)) [] [])).
+  { apply (faithful_intro s X); try done.
+    intros n Hn. apply HX. apply HX in Hn. apply reach_inh in Hn as (k&x&Hx&_).
+    apply (reach_roots_term s HI); [done|]. intros ->. set_solver. }
+  split; [done|]. intros u a Hu.
+  assert (Hv : valid s u) by (by eapply Forall_forall in Hr).
+  destruct Hf as (_&_&Hev). rewrite Hev; [by apply D_abs|].
+  apply reach_root; [by exists u|by apply valid_dom].
+Qed.
+
+(** *** DOT *)
+Definition label_of (n : positive) : option nat :=
+  match succ s !! n with
+  | Some t => if is_term t then None else lvl2var s !! t_lvl t
+  | None => None
+  end.
+
+Lemma to_dot_run (roots : option (list Z)) (X : gset positive) :
+  (match roots with
+   | None => X = dom (succ s)
+   | Some rs => descendants rs s = (Ok X, s)
+   end) →
+  Forall (valid s) (default [] roots) →
+  1%positive ∈ X → (∀ n, n ∈ X → n ∈ dom (succ s)) →
+  to_dot roots s =
+    (Ok (XGraph (levels_of s (elements X)) (edges_of s (elements X))
+                (default [] roots) ((fun n => (n, label_of n)) <$> elements X)), s).
+Proof.
+  intros HXr Hr H1 Hd. unfold to_dot. cbn [bind get].
+  assert (En : (match roots with
+                | None => ret (dom (succ s))
+                | Some rs => descendants rs
+                end) s = (Ok X, s)).
+  { destruct roots; [done|]. by subst X. }
+  rewrite (bind_ok _ _ _ _ _ En).
+  rewrite (bind_ok _ _ _ _ _ (getsucc_ok s _ _ (inv_term _ HI))).
+  unfold assert. rewrite bool_decide_eq_true_2.
+  2:{ apply Exists_exists. exists 1%positive. split; [by apply elem_of_elements|].
+      by rewrite (inv_term _ HI). }
+  rewrite (bind_ok _ _ s tt s) by done.
+  replace (forallb _ (elements X)) with true.
+  2:{ symmetry. apply forallb_forall. intros n Hn. apply elem_of_list_In, elem_of_elements in Hn.
+      destruct (succ s !! n) as [t|] eqn:Ht; [|done].
+      destruct (is_term t) eqn:Et; [done|]. cbn. apply bool_decide_eq_true.
+      assert (Hn1 : n ≠ 1%positive).
+      { intros ->. rewrite (inv_term _ HI) in Ht. by simplify_eq. }
+      destruct (inv_node _ HI _ _ Ht Hn1) as (Hl&_). by apply (inv_lvls _ HI). }
+  rewrite (bind_ok _ _ s tt s) by done.
+  assert (Ef : forM (default [] roots) (fun u => getsuccZ u ;;; ret tt) s = (Ok tt, s)).
+  { induction Hr as [|u l [Hu0 [t Ht]] _ IH]; [done|]. cbn [forM].
+    rewrite (bind_ok _ _ s tt s); [done|].
+    by rewrite (bind_ok _ _ _ _ _ (getsuccZ_ok s u t Hu0 Ht)). }
+  rewrite (bind_ok _ _ _ _ _ Ef). unfold ret. f_equal. f_equal. f_equal.
+  apply list_fmap_ext. intros _ n _. unfold label_of.
+  destruct (succ s !! n) as [t|]; [|done]. destruct (is_term t); [done|].
+  by destruct (lvl2var s !! t_lvl t).
+Qed.
+
+(** the labels give the tested variable: evaluation by names *)
+Lemma gevaln_D (X : gset positive) g ρ :
+  (∀ n, n ∈ X → n ∈ dom (succ s)) →
+  (∀ n t, n ∈ X → n ≠ 1%positive → succ s !! n = Some t →
+     absn (t_lo t) ∈ X ∧ absn (t_hi t) ∈ X) →
+  1%positive ∈ X →
+  x_nodes g = levels_of s (elements X) → x_edges g = edges_of s (elements X) →
+  x_labels g = (fun n => (n, label_of n)) <$> elements X →
+  ∀ n, n ∈ X → gevaln g n ρ = denv s (Z.pos n) ρ.
+Proof.
+  intros Hd Hc H1 E1 E2 E3 n Hn.
+  pose proof (graph_of_intro s HI X g E1 E2) as Hg.
+  assert (Hlab : ∀ m, m ∈ X → g_label g m = Some (label_of m)).
+  { intros m Hm. unfold g_label. rewrite E3. apply elem_of_list_to_map_1'.
+    - intros y Hy. apply elem_of_list_fmap in Hy as (k&Ek&_). by simplify_eq.
+    - apply elem_of_list_fmap. exists m. split; [done|by apply elem_of_elements]. }
+  unfold gevaln, denv. apply (gwalk_D s HI X Hd Hc g Hg); [| |done|apply (gfuel_ok s HI X g Hg H1)].
+  - intros m t Hm Ht Hm1. rewrite (Hlab m Hm). unfold label_of. rewrite Ht.
+    destruct (is_term t) eqn:Et; [|done].
+    apply (is_term_iff s HI _ _ Ht) in Et. done.
+  - rewrite (Hlab _ H1). by eexists.
+Qed.
+
+Theorem to_dot_faithful (roots : option (list Z)) :
+  Forall (valid s) (default [] roots) → roots ≠ Some [] →
+  let P := match roots with
+           | None => fun n => n ∈ dom (succ s)
+           | Some rs => reach (succ s) (rootsR rs)
+           end in
+  ∃ g, to_dot roots s = (Ok g, s) ∧ x_refs g = default [] roots ∧
+    faithful s P g ∧
+    (∀ n o, (n, o) ∈ x_labels g ↔ P n ∧ o = label_of n) ∧
+    (∀ n ρ, P n → gevaln g n ρ = denv s (Z.pos n) ρ) ∧
+    ∀ u, u ∈ x_refs g → P (absn u) ∧
+      (∀ a, D s u a = xorb (bool_decide (u < 0)%Z) (geval g (absn u) a)) ∧
+      (∀ ρ, denv s u ρ = xorb (bool_decide (u < 0)%Z) (gevaln g (absn u) ρ)).
+Proof.
+  intros Hr Hne P.
+  assert (∃ X : gset positive, (∀ n, n ∈ X ↔ P n) ∧
+            match roots with
+            | None => X = dom (succ s)
+            | Some rs => descendants rs s = (Ok X, s)
+            end ∧ 1%positive ∈ X ∧
+            (∀ n, n ∈ X → n ∈ dom (succ s)) ∧
+            (∀ n t, n ∈ X → n ≠ 1%positive → succ s !! n = Some t →
+               absn (t_lo t) ∈ X ∧ absn (t_hi t) ∈ X)) as (X&HX&HXr&H1&Hd&Hc).
+  { subst P. destruct roots as [rs|].
+    - destruct (descendants_exact s HI rs Hr) as (X&E&HX). exists X.
+      destruct (reach_set_closed _ X HX) as [Hd Hc].
+      split_and!; try done. apply HX. apply (reach_roots_term s HI); [done|congruence].
+    - exists (dom (succ s)). split_and!; try done.
+      + apply elem_of_dom. rewrite (inv_term _ HI). by eexists.
+      + intros n t Hn Hn1 Ht.
+        destruct (inv_node _ HI _ _ Ht Hn1) as (_&[_ ?]&_&[_ ?]&_).
+        split; by apply elem_of_dom. }
+  eexists. split; [by apply (to_dot_run roots X)|]. split; [done|].
+  assert (Hf : faithful s P
+     (XGraph (levels_of s (elements X)) (edges_of s (elements X))
+             (default [] roots) ((fun n => (n, label_of n)) <$> elements X))).
+  { by apply (faithful_intro s X). }
+  assert (Hn : ∀ n ρ, P n →
+     gevaln (XGraph (levels_of s (elements X)) (edges_of s (elements X))
+               (default [] roots) ((fun n => (n, label_of n)) <$> elements X)) n ρ
+     = denv s (Z.pos n) ρ).
+  { intros n ρ Hp. apply (gevaln_D X); try done. by apply HX. }
+  split; [done|]. split; [|split; [done|]].
+  - intros n o. cbn [x_labels]. rewrite elem_of_list_fmap. split.
+    + intros (k&Ek&Hk). simplify_eq. apply elem_of_elements, HX in Hk. done.
+    + intros [Hp ->]. exists n. split; [done|]. by apply elem_of_elements, HX.
+  - cbn [x_refs]. intros u Hu.
+    assert (Hv : valid s u) by (by eapply Forall_forall in Hr).
+    assert (Hp : P (absn u)).
+    { subst P. destruct roots as [rs|]; [|by apply valid_dom].
+      apply reach_root; [by exists u|by apply valid_dom]. }
+    split; [done|]. destruct Hf as (_&_&Hev). split.
+    + intros a. rewrite Hev by done. by apply D_abs.
+    + intros ρ. rewrite Hn by done. unfold denv. by apply D_abs.
+Qed.
+
+(** [_to_dot] of an empty collection of roots fails (the level of node 1 is
+    missing), as in the implementation *)
+Lemma to_dot_empty : to_dot (Some []) s = (Err EAssert, s).
+Proof.
+  unfold to_dot. cbn [bind get].
+  destruct (descendants_exact s HI []) as (X&E&HX); [done|].
+  rewrite (bind_ok _ _ _ _ _ E).
+  rewrite (bind_ok _ _ _ _ _ (getsucc_ok s _ _ (inv_term _ HI))).
+  assert (X = ∅) as ->.
+  { apply elem_of_equiv_empty_L. intros n Hn. apply HX in Hn.
+    apply reach_inh in Hn as (k&x&Hx&_). by apply elem_of_nil in Hx. }
+  by rewrite elements_empty.
+Qed.
+
+End export.
